@@ -18,7 +18,7 @@ from .. import common
 from ..common import sig_key
 
 LEVEL = "exploration"
-RULE = "2-4 threads each running a differentiation program on its own data (nested grad exposing trace-level confusion, Hessian-vector product of a small net, make_jvp of grad, flat grad, jacobian of a container program, shared operator objects, flatten / flatten_func of a parameter tree, real FFTs with per-thread options, per-thread precision parameter lists, a thread whose differentiations fail and are caught) under a deterministic scheduler with yield points at trace entry/exit, rule applications, operation events (before every primitive call, after every raw evaluation), explicit points and LINE events of the rule modules. Bounded configurations (2 threads x <= 6 yield points, 3 threads x <= 3) are enumerated exhaustively by DFS over all interleavings; larger ones get burst-biased random schedules; a free-running stress (switch interval 1e-6) complements them. A schedule is non-trivial iff at least one context switch happened while some thread was inside a trace; distinct = distinct decision sequences (interleavings)."
+RULE = "2-4 threads each running a differentiation program on its own data (nested grad exposing trace-level confusion, Hessian-vector product of a small net, make_jvp of grad, flat grad, jacobian of a container program, shared operator objects, flatten / flatten_func of a parameter tree, real FFTs with per-thread options, per-thread precision parameter lists, a thread whose differentiations fail and are caught, one checkpoint(fun) object shared by all threads) under a deterministic scheduler with yield points at trace entry/exit, rule applications, operation events (before every primitive call, after every raw evaluation), explicit points and LINE events of the rule modules. Bounded configurations (2 threads x <= 6 yield points, 3 threads x <= 3) are enumerated exhaustively by DFS over all interleavings; larger ones get burst-biased random schedules; a free-running stress (switch interval 1e-6) complements them. A schedule is non-trivial iff at least one context switch happened while some thread was inside a trace; distinct = distinct decision sequences (interleavings)."
 ASSUMPTIONS = ["schedules at event/line granularity, not inside one bytecode line", "threads work on unrelated data (no tracer object crosses threads)"]
 EXHAUSTIVE = {"C20": "all interleavings of the bounded configurations listed in coverage.info.exhaustive_configs"}
 
